@@ -176,6 +176,14 @@ def corpusA(part, seed=0):
         for bad in ("0" * 12, "1" * 14, ""):
             yield "squawk", (bad,)
             yield "altitude", (bad,)
+        # 13 characters that are not 13 bits: both modules document a RuntimeError for anything but a 13-bit binary string
+        # (strings int(s, 2) would swallow: sign, blank, newline, underscore, 0b prefix - and plain wrong digits)
+        base = "0101001100001"
+        for ch in ("\n", " ", "+", "-", "_", "b", "2", "x", "\t", "１"):
+            for pos in (0, 1, 6, 11, 12):
+                bad = base[:pos] + ch + base[pos + 1:]
+                yield "squawk", (bad,)
+                yield "altitude", (bad,)
     elif part == "status":
         triples = [(1, 2, 13), (14, 15, 26), (27, 28, 39), (48, 49, 51), (54, 55, 56), (1, 2, 11), (1, 3, 11), (12, 13, 23),
                    (24, 25, 34), (35, 36, 45), (46, 47, 56), (1, 2, 12), (13, 14, 23), (5, 6, 23), (35, 36, 46), (47, 48, 49),
